@@ -3,7 +3,7 @@ import io
 import sys
 from hypothesis import strategies as st
 
-from ..core import Part, sut
+from ..core import Part, sut, SutError
 from ..gen import styles as GS, chars as GC
 from ..oracles import sgr as SGR
 from . import c03 as C03
@@ -168,9 +168,9 @@ class Proxy(Part):
         long = st.one_of(st.none(), st.none(), st.none(), st.builds(lambda i, n, sp, cut, fl: {"line": i, "len": n, "style": sp, "cut": cut, "flush": fl}, st.integers(0, 5), long_len, st.one_of(st.none(), st.sampled_from(GS.PALETTE)),
                                                                     st.one_of(st.none(), st.floats(0, 1), st.floats(0.9, 1)), st.booleans()))
         return st.builds(
-            lambda lines, last_nl, cuts, flushes, route, lg: {"lines": lines, "final_newline": last_nl, "cuts": cuts, "flushes": flushes, "route": route, "long": lg},
+            lambda lines, last_nl, cuts, flushes, route, lg, wf: {"lines": lines, "final_newline": last_nl, "cuts": cuts, "flushes": flushes, "route": route, "long": lg, "write_fault": wf},
             st.lists(line, min_size=1, max_size=6), st.booleans(),
-            st.lists(st.integers(0, 400), max_size=10), st.lists(st.integers(0, 400), max_size=4), st.sampled_from(["proxy", "proxy", "live", "live-stderr"]), long,
+            st.lists(st.integers(0, 400), max_size=10), st.lists(st.integers(0, 400), max_size=4), st.sampled_from(["proxy", "proxy", "live", "live-stderr"]), long, st.one_of(st.none(), st.none(), st.integers(0, 6)),
         )
 
     def check(self, spec, ctx):
@@ -215,7 +215,21 @@ class Proxy(Part):
             if lg.get("flush", True):
                 flush_at = sorted(set(flush_at) | {long_cut})
         points = sorted(set(cuts) | set(flush_at) | {len(raw)})
-        f = io.StringIO()
+        class FaultyFile(io.StringIO):
+            """The console's file refuses one write (as a terminal with a narrower encoding does for a character it cannot encode); the caller carries on."""
+            fail_next = False
+            failed = 0
+
+            def write(self, t):
+                if self.fail_next:
+                    self.fail_next = False
+                    self.failed += 1
+                    raise UnicodeEncodeError("ascii", t[:1] or "x", 0, 1, "injected: ordinal not in range(128)")
+                return super().write(t)
+
+        f = FaultyFile()
+        # a write fault is injected only into plain streams written straight through a FileProxy (a lost line then carries no state of the decoder away with it)
+        fault_chunk = spec.get("write_fault") if (spec["route"] == "proxy" and not lg and all(r["s"] is None for line in spec["lines"] for r in line)) else None
         con = sut(Console, file=f, color_system="truecolor", force_terminal=True, legacy_windows=False, width=CW, _environ={})
         sink = io.StringIO()
         expected_raw = ""  # raw stream with the newline each non-empty flush adds
@@ -226,11 +240,51 @@ class Proxy(Part):
         def drive(write, flush):
             nonlocal expected_raw, pending, inside_escape_cut, nonempty_flush
             pos = 0
-            for p in points:
+            for pi, p in enumerate(points):
                 chunk = raw[pos:p]
+                completes = "\n" in chunk
+                if fault_chunk is not None and completes and pi >= fault_chunk and not f.failed:
+                    # this write() completes at least one line: the console's write of those lines fails; they are lost, nothing else is
+                    f.fail_next = True
+                    try:
+                        write(chunk)
+                    except UnicodeEncodeError:
+                        pass
+                    except Exception as e:  # noqa
+                        raise SutError(e)
+                    if f.fail_next:
+                        f.fail_next = False     # nothing was written for this chunk after all
+                    data = pending + chunk
+                    lost, pending = data.rsplit("\n", 1)
+                    if not f.failed:
+                        expected_raw += lost + "\n"
+                    ctx.cls("console-write-failed-once")
+                    pos = p
+                    if p in flush_at:
+                        sut(flush)
+                        if pending:
+                            expected_raw += pending + "\n"
+                            nonempty_flush = True
+                            pending = ""
+                    continue
                 sut(write, chunk)
                 if p in cuts and p not in safe:
                     inside_escape_cut = True
+                if fault_chunk is not None:
+                    data = pending + chunk
+                    if "\n" in data:
+                        done, pending = data.rsplit("\n", 1)
+                        expected_raw += done + "\n"
+                    else:
+                        pending = data
+                    pos = p
+                    if p in flush_at:
+                        sut(flush)
+                        if pending:
+                            expected_raw += pending + "\n"
+                            nonempty_flush = True
+                            pending = ""
+                    continue
                 expected_raw += chunk
                 pending = (pending + chunk).rsplit("\n", 1)[-1] if "\n" in chunk else pending + chunk
                 pos = p
@@ -242,7 +296,7 @@ class Proxy(Part):
                         pending = ""
             sut(flush)
             if pending:
-                expected_raw += "\n"
+                expected_raw += (pending if fault_chunk is not None else "") + "\n"
                 pending = ""
             sut(flush)
 
